@@ -1,0 +1,62 @@
+//go:build verif
+
+package larking
+
+import (
+	"fmt"
+	"sort"
+	"strings"
+
+	"google.golang.org/grpc"
+)
+
+// This file is compiled only with the "verif" build tag. It adds accessors
+// used by the external verification harness and changes no behaviour.
+
+// VerifRegisterService is registerService with the error returned instead of
+// passed to log.Fatalf.
+func (m *Mux) VerifRegisterService(sd *grpc.ServiceDesc, ss interface{}) error {
+	return m.registerService(sd, ss)
+}
+
+// VerifHTTPBodyCodec returns the built-in google.api.HttpBody stream codec.
+func VerifHTTPBodyCodec() StreamCodec { return codecHTTPBody{} }
+
+// VerifSnapshot returns the currently published routing state.
+func (m *Mux) VerifSnapshot() interface{} { return m.loadState() }
+
+// VerifFingerprint computes a structural fingerprint of a captured snapshot.
+func VerifFingerprint(v interface{}) string {
+	s, _ := v.(*state)
+	if s == nil {
+		return "nil"
+	}
+	var sb strings.Builder
+	sb.WriteString(s.path.String())
+	sb.WriteString("|handlers{")
+	keys := make([]string, 0, len(s.handlers))
+	for k := range s.handlers {
+		keys = append(keys, k)
+	}
+	sort.Strings(keys)
+	for _, k := range keys {
+		fmt.Fprintf(&sb, "%s:", k)
+		for _, h := range s.handlers[k] {
+			fmt.Fprintf(&sb, "%p,", h)
+		}
+		sb.WriteString(";")
+	}
+	sb.WriteString("}|conns{")
+	var cs []string
+	for c, cl := range s.conns {
+		var hs []string
+		for _, h := range cl.handlers {
+			hs = append(hs, fmt.Sprintf("%p", h))
+		}
+		cs = append(cs, fmt.Sprintf("%p:%x:%s", c, cl.fdHash, strings.Join(hs, ",")))
+	}
+	sort.Strings(cs)
+	sb.WriteString(strings.Join(cs, ";"))
+	sb.WriteString("}")
+	return sb.String()
+}
